@@ -23,6 +23,23 @@ class Format(str, Enum):
 
 
 # class GotranPythonCodePrinter(NumPyPrinter):
+def _integer_product(expr) -> int | None:
+    """The value of a (nested) product of integers and positive integer powers of integers"""
+    if expr.is_Integer:
+        return int(expr)
+    if expr.is_Pow and expr.base.is_Integer and expr.exp.is_Integer and 0 < expr.exp < 4096:
+        return int(expr.base) ** int(expr.exp)
+    if expr.is_Mul:
+        value = 1
+        for arg in expr.args:
+            factor = _integer_product(arg)
+            if factor is None:
+                return None
+            value *= factor
+        return value
+    return None
+
+
 class GotranPythonCodePrinter(PythonCodePrinter):
     _kf = {
         **{k: f"numpy.{v.replace('math.', '')}" for k, v in PythonCodePrinter._kf.items()},
@@ -55,6 +72,14 @@ class GotranPythonCodePrinter(PythonCodePrinter):
                 sympy.Mul(sympy.Float(1.0), expr.base, evaluate=False), expr.exp, evaluate=False
             )
         return super()._hprint_Pow(expr, rational, sqrt)
+
+    def _print_Mul(self, expr):
+        # a product of integer constants, each of which fits in 64 bits, can still be a
+        # Python int that numpy and jax refuse (see _print_Integer): 735600**2*735600**2
+        value = _integer_product(expr)
+        if value is not None and abs(value) >= 2**63:
+            return self._print_Float(sympy.Float(value))
+        return super()._print_Mul(expr)
 
     def _print_MatrixElement(self, expr):
         if expr.parent.shape[1] == 1:
